@@ -25,13 +25,19 @@ CInitCommon ==
 
 CInit_2x2 == /\ NC = 2 /\ Waiters = {"w1", "w2"} /\ UpdCap = 10
              /\ Rtt0 \in [1..2 -> Nat] /\ CInitCommon
+CInit_3x3 == /\ NC = 3 /\ Waiters = {"w1", "w2", "w3"} /\ UpdCap = 10
+             /\ Rtt0 \in [1..3 -> Nat] /\ CInitCommon
 CInit_3x4 == /\ NC = 3 /\ Waiters = {"w1", "w2", "w3", "w4"} /\ UpdCap = 10
              /\ Rtt0 \in [1..3 -> Nat] /\ CInitCommon
 CInit_4x6 == /\ NC = 4 /\ Waiters = {"w1", "w2", "w3", "w4", "w5", "w6"} /\ UpdCap = 10
              /\ Rtt0 \in [1..4 -> Nat] /\ CInitCommon
+CInit_6x6 == /\ NC = 6 /\ Waiters = {"w1", "w2", "w3", "w4", "w5", "w6"} /\ UpdCap = 10
+             /\ Rtt0 \in [1..6 -> Nat] /\ CInitCommon
+CInit_8x8 == /\ NC = 8 /\ Waiters = {"w1", "w2", "w3", "w4", "w5", "w6", "w7", "w8"} /\ UpdCap = 10
+             /\ Rtt0 \in [1..8 -> Nat] /\ CInitCommon
 
 \* Apalache: every variable is assigned (Gen(n): an arbitrary value whose collections have at most n elements), then constrained
-IndInit ==
+IndGen ==
   /\ head \in [Conns -> Nat] /\ alive \in [Conns -> BOOLEAN] /\ rtt \in [Conns -> Nat]
   /\ clk \in [Conns -> BOOLEAN]
   /\ updCh = Gen(10)
@@ -40,20 +46,33 @@ IndInit ==
   /\ best \in Conns
   /\ reg \in [Waiters -> BOOLEAN]
   /\ LET \* @type: Str -> <<Int, Int, Int>>;
-         m == Gen(6)
+         m == Gen(8)
      IN \E full \in SUBSET Waiters :                  \* a waiter channel holds at most WCap = 1 head
           ch = [w \in Waiters |-> IF w \in full THEN <<m[w]>> ELSE <<>>]
   /\ wpc \in [Waiters -> WPcs]
   /\ want \in [Waiters -> Nat] /\ tmo \in [Waiters -> Nat] /\ hread \in [Waiters -> Nat]
   /\ timer \in [Waiters -> Nat] /\ orig \in [Waiters -> Nat]
   /\ cancelled \in [Waiters -> BOOLEAN] /\ result \in [Waiters -> Results]
-  /\ okby = Gen(6)
+  /\ okby = Gen(8)
   /\ rett \in [Waiters -> Nat]
   /\ rpc \in RPcs /\ rupd = Gen(1) /\ rtodo \in SUBSET Waiters
   /\ now \in Nat /\ flips \in Nat
-  /\ ParamOK
-  /\ IndInv
+IndInitBody == IndGen /\ IndInv
+IndInit == IndInitBody /\ ParamOK
 
-\* the inductive step as ONE action invariant (no re-check of IndInv in the state that IndInit already constrains)
-IndInvNext == IndInv'
+(* -------------------------------------------------------------------- canaries *)
+\* obligations that MUST FAIL (bin/prove expects a counterexample): they show that the runs above are not vacuous
+\* (a) IndInit is satisfiable, in particular by the shape of state in which the protocol as it was deadlocked:
+\*     the run loop inside its notify loop under the read lock, a leaving waiter parked on the write lock
+CanarySat == ~(rpc = "send" /\ \E w \in Waiters : wpc[w] = "unsub_acq" /\ rw.pend = w)
+\* (b) the same invariant with notifySubscribers as it was (blocking send on a full 1-slot channel): NeverStuck fails
+CInitAsIs_2x2 == /\ NC = 2 /\ Waiters = {"w1", "w2"} /\ UpdCap = 10 /\ Rtt0 \in [1..2 -> Nat]
+                 /\ None = "none" /\ RunP = "run"
+                 /\ MaxSeq \in Nat /\ Steps = {0, 1} /\ Wants = {0} /\ Timeouts = {0}
+                 /\ MaxTime \in Nat /\ MaxFlips \in Nat /\ MaxTime < Inf
+                 /\ Strategy \in Strategies
+                 /\ FixNotify = FALSE /\ FixTimer = TRUE /\ FixSetHead = TRUE
+IndInitAsIs == IndInitBody /\ ~FixNotify
+\* (c) the properties alone (with the type part) are not inductive: the strengthening LockInv / DataInv / TimeInv is needed
+IndInitGoalsOnly == IndGen /\ ParamOK /\ TypeInv /\ Goals
 =============================================================================
